@@ -22,7 +22,8 @@ META = {
     "technique": "TLA+ guards (HeapTrace.tla, SpaceFor table) evaluated by TLC on every recorded "
                  "allocation of a boundary grid executed on the real allocators of all plans",
 }
-PREFIXES = ("C03:",)
+# an allocation that overlaps another one does not honour its size: C02's overlap guard counts here too
+PREFIXES = ("C03:", "C02:overlap")
 
 
 def run(ctx):
